@@ -630,6 +630,27 @@ theorem getSirm_cold (m : Mem) (sb s : Nat) (log) (h : Bootstrap m sb s) :
   simp [e3, setSirmCache, M.bind_eq, pure, M.pure]
 
 
+/-- `ControlHandle::sirm` with the SBRM cached (e.g. by the public `ControlHandle::sbrm()`) but
+the SIRM address not yet: one read of the SIRM address register. -/
+theorem getSirm_mixed (m : Mem) (sb cap s : Nat) (log) (hcap : cap % 2 = 1)
+    (hsp : sb + 0x28 ≤ 2 ^ 64) (hm : m.rangeMapped sb 0x28 = true)
+    (haddr : regVal m sb SBRM_SIRM_ADDRESS 8 = s) :
+    getSirm (mkSt m log (some (sb, cap)) none) =
+      (.ok s, mkSt m (log ++ [.r (sb + SBRM_SIRM_ADDRESS) 8 true]) (some (sb, cap)) (some s)) := by
+  have h3 : m.rangeMapped (sb + SBRM_SIRM_ADDRESS) 8 = true :=
+    Mem.rangeMapped_sub m _ _ _ _ hm (by omega) (by simp only [SBRM_SIRM_ADDRESS]; omega)
+  simp only [regVal] at haddr
+  have hsb : getSbrm (mkSt m log (some (sb, cap)) none) = (.ok (sb, cap), mkSt m log (some (sb, cap)) none) := by
+    unfold getSbrm; rw [M.get_bind]; rfl
+  unfold getSirm
+  rw [M.get_bind]
+  simp only []
+  rw [M.bind_ok _ _ _ _ _ hsb]
+  simp only [hcap, if_true]
+  rw [M.bind_ok _ _ _ _ _ (readReg_ok sb SBRM_SIRM_ADDRESS 8 m _ _ none (by decide)
+    (by simp only [SBRM_SIRM_ADDRESS]; omega) h3)]
+  simp [haddr, setSirmCache, M.bind_eq, pure, M.pure]
+
 /-- `StreamParams::from_control` on a fault-free conforming device returns the register values
 of the image (and does not modify it). -/
 theorem fromControl_ok (m : Mem) (sb s : Nat) (log c1 c2) (h : Bootstrap m sb s) (hs : SirmOk m s) :
